@@ -5,6 +5,7 @@ from .. import histprop as H
 ID = 'C08'
 LEVEL = 'exploration'
 RULE = (
+    'S: every position of the dynamic-reordering trigger for the entry points that create handles from other managers, files and recursions with integer intermediates (as in C09). '
     'Histories also contain a few rejected calls from the catalogue of C17 (failing loads, undeclared names, ...). '
     'H: Hypothesis histories on dd.autoref; the harness registry holds the '
     'only strong references to Function objects. Operations: constructions '
@@ -29,7 +30,7 @@ ASSUMPTIONS = [
 ]
 
 ALPHA = {
-    'build': 8, 'repeat': 5, 'var': 2, 'cube': 2, 'funcop': 8, 'apply': 3, 'not': 1,
+    'build': 8, 'repeat': 5, 'churn': 3, 'compare_all': 4, 'var': 2, 'cube': 2, 'funcop': 8, 'apply': 3, 'not': 1,
     'ite': 2, 'quantify': 2, 'let_const': 1, 'let_rename': 1,
     'let_compose': 2, 'add_expr': 2, 'to_expr': 1, 'queries': 1,
     'traverse': 4, 'copy_handle': 3, 'drop': 10, 'gc': 5, 'sift': 3,
@@ -62,6 +63,11 @@ def plan(tier, seed):
          [dict(kind='autoref', nmax=6, init_vars=6, reordering=True,
                semantic=False)]
     specs = []
+    # trigger-position sweeps of dynamic reordering (machinery of C09)
+    for s_ in range(6 if tier == 'thorough' else 2):
+        specs.append(dict(kind='schedule', seed=seed * 100 + 60 + s_,
+                          only=['copy', 'ar_copy_bdd', '_copy_copy_bdd', 'load_pickle', 'load_json', 'image', 'preimage', 'find_or_add', 'cube', 'funcop'],
+                          examples=200 if tier == 'thorough' else 40))
     k = 16 if tier == 'thorough' else 12
     for s in range(k):
         re = (s % 2 == 1)
@@ -79,6 +85,9 @@ def plan(tier, seed):
 
 
 def run(spec, out):
+    if spec['kind'] == 'schedule':
+        from . import c09
+        return c09.run_schedule(spec, out)
     if spec['kind'] == 'catalogue':
         from . import c17
         return c17.run_catalogue(spec, out)
@@ -86,4 +95,8 @@ def run(spec, out):
                  nontrivial, shutdown=True)
 
 
-replay_into = H.replay_into
+def replay_into(case, out):
+    if case.get('kind') == 'schedule':
+        from . import c09
+        return c09.replay_into(case, out)
+    return H.replay_into(case, out)
